@@ -3,7 +3,7 @@ import shapecheck
 
 PROP = 'C05'
 VARIANTS = ['asan-direct']
-RULE = ('Generators: (a) fz_shape libFuzzer campaign (16 forked workers, table-aware mutator) over synthesised + minified shipped fonts, header bytes select face options/table source/encoding/dir 0..7/ppm/features/language/NUL-termination, text drawn from the face\'s own mapped code points plus unmapped, astral and ill-formed units; (b) Hypothesis "wild" GDL-lite programs (backward cursor, insert-heavy, attach chains and re-attachment, put_copy/assoc in positioning passes, division, arbitrary slot attributes, reversed passes, NSM/mirror/pseudo glyphs, justification levels) x 1-4 probes; (c) shipped fonts x cmap-guided texts x 3 encodings x dir 0..7. Oracle (seginv.h + utfref.h): n_cinfo == nChars; unicode_char/base judged per char-info by an independent UTF classifier (policy independent for ill-formed text); slot before/after/original in [0,n); every character inside some slot\'s [before,after]; char-info before/after in [0,n_slots). Non-trivial: some slot has before != after or the slot count differs from the character count. Known finding KF1 (re-association in positioning passes) recognised by hook H3 and excluded. Distinct by input hash / case JSON.')
+RULE = ('Generators: (a) fz_shape libFuzzer campaign (16 forked workers, table-aware mutator) over synthesised + minified shipped fonts, header bytes select face options/table source/encoding/dir 0..7/ppm/features/language/NUL-termination, text drawn from the face\'s own mapped code points plus unmapped, astral and ill-formed units; (b) Hypothesis "wild" GDL-lite programs (backward cursor, insert-heavy, attach chains and re-attachment, put_copy/assoc in positioning passes, substitution through arbitrary class pairs, division, arbitrary slot attributes, reversed passes, NSM/mirror/pseudo glyphs, unreadable glyphs, linear and bisected class tables, justification levels, line-end contextuals; for C04 half of them attachment-stress programs over a 3-4 glyph alphabet) x 1-4 probes; (c) shipped fonts x cmap-guided texts (1 in 4 with raw ill-formed code-unit fragments) x 3 encodings x dir 0..7 x font NULL / unhinted / hinted. Oracle (seginv.h + utfref.h): n_cinfo == nChars; unicode_char/base judged per char-info by an independent UTF classifier (policy independent for ill-formed text); slot before/after/original in [0,n); every character inside some slot\'s [before,after]; char-info before/after in [0,n_slots). Non-trivial: some slot has before != after or the slot count differs from the character count. Known finding KF1 (re-association in positioning passes) recognised by hook H3 and excluded. Distinct by input hash / case JSON.')
 ASSUME = ['surrogate code points in UTF-8/32 tolerated either way (DESIGN N1)', 'KF1 trigger excluded, counted in known_findings_hit']
 
 
